@@ -172,6 +172,7 @@ func cmdRun(args []string) int {
 		fmt.Println("ENGINE-ERROR no harness for", *prop)
 		return 2
 	}
+	currentTier = *tier
 	cfg := Config{Tier: *tier, Workers: *workers, SolverName: *solver, SolverINT: *solverInt, LogDir: *logdir, Verbose: *verbose}
 	if cfg.Workers == 0 {
 		cfg.Workers = runtime.NumCPU()
@@ -350,10 +351,13 @@ type replayFile struct {
 	Kinds    string  `json:"kinds"`
 }
 
+// currentTier is the tier of this run; a replay must use the same harness bounds.
+var currentTier string
+
 func replayViolation(p *Program, prop string, v *Violation, n int) (bool, string, string) {
 	dir := filepath.Join(verifDir, "replays", prop)
 	os.MkdirAll(dir, 0o755)
-	rf := replayFile{Property: prop, Harness: v.Harness, Label: v.Label, Kind: v.Kind}
+	rf := replayFile{Property: prop, Harness: v.Harness, Label: v.Label, Kind: v.Kind, Tier: currentTier}
 	for _, x := range v.Vec {
 		rf.Vector = append(rf.Vector, x.Val)
 		rf.Kinds += x.Kind[:1]
@@ -411,6 +415,9 @@ func TestVerifReplay(t *testing.T) {
 	cmd := exec.Command("timeout", args...)
 	cmd.Dir = repo
 	cmd.Env = append(os.Environ(), "GOFLAGS=-mod=mod", "GOPROXY=off", "GOSUMDB=off", "GOTOOLCHAIN=local")
+	if rf.Tier != "" {
+		cmd.Env = append(cmd.Env, "VERIF_TIER="+rf.Tier) // the harness bounds (vbound) of the tier the vector was found in
+	}
 	out, _ := cmd.CombinedOutput()
 	s := string(out)
 	if race {
